@@ -971,7 +971,8 @@ std::string plan_to_text(const Plan &p) {
     for (size_t t = 0; t < p.tasks.size(); t++) {
         o << "task " << t << " arena_seed " << p.tasks[t].arena_seed << " parent " << p.tasks[t].parent << "\n";
         for (const Op &op : p.tasks[t].ops) {
-            o << "op " << (op.fn >= 0 && op.fn < FN_COUNT ? g_fn[op.fn].name : "?");
+            if (op.fn >= 0 && op.fn < FN_COUNT) o << "op " << g_fn[op.fn].name;
+            else o << "op #" << op.fn;
             for (int i = 0; i < MAXA; i++) o << " " << (long long)op.a[i];
             o << "\n";
             for (const Blob &bl : op.blobs) o << "blob " << bl.off << " " << (bl.bytes.empty() ? "-" : hexs(bl.bytes)) << "\n";
